@@ -16,23 +16,62 @@ import (
 // expressions); every emitted value is followed by "|". The reference evaluator runs the items in order.
 
 type c16Item struct {
-	T    string // def | let | set | emit | for (N = loop variable, E = iterable, Body)
+	// def | let | set | emit | for (N = loop variable, E = iterable, Body)
+	// | render (top level only: what follows is ANOTHER template, rendered next with the same context)
+	// | partial (N = its name, Data = the local data of the call, Body = the partial's template)
+	// | probe (E = a call that may fail on an unset variable, N = the form that forgives it, ID; value discarded)
+	T    string
 	F    *c16Fn
 	Gen  bool // def: a generated decision chain (its body may be shrunk)
 	N    string
 	E    *c16Expr
+	ID   int
+	Data []c16Bind
 	Body []*c16Item
+}
+
+type c16Bind struct {
+	N string
+	E *c16Expr
 }
 
 type c16Hist struct {
 	Shape string
 	Items []*c16Item
+	Plain bool // the family id is Shape as it is (no :single-use variant)
+	Exec  bool // templates run through Parse + Exec
 }
 
-func c16ItemsSrc(items []*c16Item) string {
+// c16HistSrc: the templates of the history, in the order they are rendered (split at the render items), and its partials.
+func c16HistSrc(items []*c16Item) (steps []string, partials map[string]string) {
+	partials = map[string]string{}
+	from := 0
+	for i, it := range items {
+		if it.T == "render" {
+			steps = append(steps, c16ItemsSrc(items[from:i], partials))
+			from = i + 1
+		}
+	}
+	steps = append(steps, c16ItemsSrc(items[from:], partials))
+	if len(partials) == 0 {
+		partials = nil
+	}
+	return steps, partials
+}
+
+func c16ItemsSrc(items []*c16Item, partials map[string]string) string {
 	var b strings.Builder
 	for _, it := range items {
 		switch it.T {
+		case "partial":
+			ds := []string{}
+			for _, d := range it.Data {
+				ds = append(ds, d.N+": "+d.E.Src())
+			}
+			b.WriteString("<%= partial(" + strconv.Quote(it.N) + ", {" + strings.Join(ds, ", ") + "}) %>")
+			partials[it.N] = c16ItemsSrc(it.Body, partials)
+		case "probe":
+			b.WriteString(c16ProbeSrc(it.N, it.E, it.ID, ""))
 		case "def":
 			b.WriteString(it.F.Def())
 		case "let":
@@ -42,7 +81,7 @@ func c16ItemsSrc(items []*c16Item) string {
 		case "emit":
 			b.WriteString("<%= " + it.E.Src() + " %>|")
 		case "for":
-			b.WriteString("<%= for (" + it.N + ") in " + it.E.Src() + " { %>" + c16ItemsSrc(it.Body) + "<% } %>")
+			b.WriteString("<%= for (" + it.N + ") in " + it.E.Src() + " { %>" + c16ItemsSrc(it.Body, partials) + "<% } %>")
 		}
 	}
 	return b.String()
@@ -81,6 +120,19 @@ func (m *c16Ref) items(items []*c16Item, env *c16Env, out *strings.Builder, uses
 			for _, x := range *arr.A {
 				m.items(it.Body, &c16Env{vars: map[string]c16Val{it.N: x}, outer: env}, out, uses)
 			}
+		case "render": // the next template, same context: the top-level bindings stay
+		case "probe":
+			m.probe(it.E, it.N, env)
+		case "partial": // the data is evaluated at the call site; the partial runs in a scope of its own below that of the call site
+			pe := &c16Env{vars: map[string]c16Val{}, outer: env}
+			for _, d := range it.Data {
+				v := m.eval(d.E, env)
+				if v.K == "nil" || v.K == "arr" {
+					panic(c16Stuck{"partial data " + v.K})
+				}
+				pe.vars[d.N] = v
+			}
+			m.items(it.Body, pe, out, uses)
 		}
 	}
 }
@@ -104,10 +156,27 @@ func c16HistBuild(h *c16Hist) (cs *c16Case, ok bool) {
 		return nil, false
 	}
 	shape := h.Shape
-	if uses == 1 { // nothing happens twice: whatever fails here is not about the history
+	if h.Plain {
+		shape = c16ScopeLabel(h, len(m.probes))
+	}
+	if uses == 1 && !h.Plain { // nothing happens twice: whatever fails here is not about the history
 		shape += ":single-use"
 	}
-	return &c16Case{Tmpl: c16ItemsSrc(h.Items), Want: out.String(), Marks: m.marks, Shape: shape, Site: "out"}, true
+	steps, partials := c16HistSrc(h.Items)
+	cs = &c16Case{Tmpl: steps[len(steps)-1], Want: out.String(), Marks: m.marks, Shape: shape, Site: "out", Partials: partials, Exec: h.Exec}
+	if len(steps) > 1 {
+		cs.Pre = steps[:len(steps)-1]
+	}
+	for _, p := range m.probes { // one per distinct forgiven failure
+		dup := false
+		for _, q := range cs.Probes {
+			dup = dup || p == q
+		}
+		if !dup {
+			cs.Probes = append(cs.Probes, p)
+		}
+	}
+	return cs, true
 }
 
 // c16HistVariants: one item less, one list element less, a simpler body of a generated function.
@@ -119,7 +188,7 @@ func c16HistVariants(items []*c16Item) [][]*c16Item {
 		return append(n, items[i+1:]...)
 	}
 	for i, it := range items {
-		if it.T != "def" {
+		if it.T != "def" && it.T != "render" { // the render boundaries stay: they are what a multi-render history is about
 			out = append(out, repl(i))
 		}
 	}
@@ -133,7 +202,14 @@ func c16HistVariants(items []*c16Item) [][]*c16Item {
 				out = append(out, repl(i, &c))
 			}
 		}
-		if it.T == "for" {
+		if it.T == "partial" && len(it.Data) > 0 { // one data entry less
+			for k := range it.Data {
+				c := *it
+				c.Data = append(append([]c16Bind{}, it.Data[:k]...), it.Data[k+1:]...)
+				out = append(out, repl(i, &c))
+			}
+		}
+		if it.T == "for" || it.T == "partial" {
 			for _, b := range c16HistVariants(it.Body) {
 				if len(b) == 0 {
 					continue
@@ -207,7 +283,20 @@ func c16RunHist(rep *Report, h *c16Hist) {
 	if v.Kind != "" {
 		// a single use that fails on its own is reported instead (always checked: the history ids are kept for
 		// failures that need the history)
+		if h.Plain {
+			for _, q := range c16ScopeSimpler(h) {
+				if c2, ok := c16HistBuild(q); ok && c2.Shape != cs.Shape {
+					if w := c16Eval(c2); w.Kind != "" {
+						h, cs, v = q, c2, w
+						break
+					}
+				}
+			}
+		}
 		for _, items := range c16HistSingles(h.Items) {
+			if h.Plain {
+				break
+			}
 			q := &c16Hist{Shape: h.Shape, Items: items}
 			if c2, ok := c16HistBuild(q); ok && strings.HasSuffix(c2.Shape, ":single-use") {
 				if w := c16Eval(c2); w.Kind != "" {
@@ -219,11 +308,11 @@ func c16RunHist(rep *Report, h *c16Hist) {
 		key := "shrunk:" + v.Site
 		if rep.Dist[key] < 12 {
 			rep.Tag(key)
-			base := strings.TrimSuffix(v.Site, ":single-use")
+			base := strings.TrimSuffix(v.Site, ":single-use") // (a scope history keeps its id: what the id names stays in the case)
 			for budget := 0; budget < 150; budget++ {
 				progress := false
 				for _, items := range c16HistVariants(h.Items) {
-					q := &c16Hist{Shape: h.Shape, Items: items}
+					q := &c16Hist{Shape: h.Shape, Items: items, Plain: h.Plain, Exec: h.Exec}
 					c2, ok := c16HistBuild(q)
 					if !ok {
 						continue
